@@ -256,6 +256,13 @@ func mkAdd(a, b *Term) *Term {
 	if b.Kind == TInt && a.Kind == TApp && a.Op == "+" && len(a.Args) == 2 && a.Args[1].Kind == TInt {
 		return mkAdd(a.Args[0], mkBig(new(big.Int).Add(a.Args[1].Int, b.Int)))
 	}
+	// x + (y - x)  and  (y - x) + x
+	if b.Kind == TApp && b.Op == "-" && len(b.Args) == 2 && termEq(b.Args[1], a) {
+		return b.Args[0]
+	}
+	if a.Kind == TApp && a.Op == "-" && len(a.Args) == 2 && termEq(a.Args[1], b) {
+		return a.Args[0]
+	}
 	return mkApp("+", a.Sort, a, b)
 }
 
